@@ -412,7 +412,7 @@ def items(draw, nalpha, form_names, depth=0):
             kk = draw(st.sampled_from(["rect", "line", "curve"]))
             out.append({"k": kk, "x": draw(st.one_of(st.integers(10, 300), st.sampled_from(EDGE))) if kk == "rect" else draw(st.integers(10, 300)),
                         "y": draw(st.one_of(st.integers(10, 700), st.sampled_from(EDGE))) if kk == "rect" else draw(st.integers(10, 700)),
-                        "w": draw(st.integers(0, 200)), "h": draw(st.integers(0, 100)),
+                        "w": draw(st.one_of(st.integers(0, 200), st.integers(-120, 200))), "h": draw(st.one_of(st.integers(0, 100), st.integers(-80, 100))),
                         "lw": draw(st.sampled_from([0, 1, 0.5, 2.75]))})
         elif k == 7:
             out.append({"k": "image", "x": draw(st.integers(10, 300)), "y": draw(st.integers(10, 600)), "w": draw(st.integers(1, 90)),
